@@ -497,14 +497,16 @@ theorem fixed_fast_positional_index :
         | _, _ => false) = true := by
   decide
 
-/-- finding `fast:positional-index:deque`: `Deque.serialize` still indexes the item fields by position:
-    a positional Deque with surplus elements raises IndexError -/
+/-- fixed `fast:positional-index:deque`: a positional Deque passes its surplus elements through, like
+    the positional Array -/
 def cxPosDeque : FieldDecl := mkCls "A" ["t"] [("t", .seqPos .deque [.integer {}] true {})]
-theorem counterexample_fast_positional_index_deque :
+theorem fixed_fast_positional_index_deque :
     createOk noMappers [] cxPosDeque = true
     ∧ wellFormed exO cxPosDeque (.inst "A" [("t", .deque [.int 1, .str "x"])]) = true
-    ∧ isOk (serialize exO cxPosDeque (.inst "A" [("t", .deque [.int 1, .str "x"])])) = true
-    ∧ isErr (fastSerialize noMappers [] [] false false cxPosDeque (.inst "A" [("t", .deque [.int 1, .str "x"])])) = true := by
+    ∧ (match serialize exO cxPosDeque (.inst "A" [("t", .deque [.int 1, .str "x"])]),
+             fastSerialize noMappers [] [] false false cxPosDeque (.inst "A" [("t", .deque [.int 1, .str "x"])]) with
+        | .ok (.dict [(_, .list [.int 1, .str "x"])]), .ok (.dict [(_, .list [.int 1, .str "x"])]) => true
+        | _, _ => false) = true := by
   decide
 
 /-- finding `fast:compact-conditions`: `set_compact_wrapper` compacts every one-field class; the
@@ -561,15 +563,12 @@ theorem counterexample_fast_extras :
 
 theorem fast_statement_false : ¬ fast_statement := by
   intro h
-  rcases counterexample_fast_positional_index_deque with ⟨h1, h2, h3, h4⟩
-  have := h exO [] cxPosDeque (.inst "A" [("t", .deque [.int 1, .str "x"])]) false (by decide) h1 h2
-  simp only [serializeCompact, cxPosDeque, mkCls, Bool.false_and, Bool.false_eq_true, if_false] at this
-  simp only [cxPosDeque, mkCls] at h3 h4
-  rw [this] at h4
-  cases hs : serialize exO (.struct { name := "A", required := ["t"], accepts := ["A"] }
-      [("t", .seqPos .deque [.integer {}] true {})] []) (.inst "A" [("t", .deque [.int 1, .str "x"])]) with
-  | ok j => rw [hs] at h4; cases h4
-  | error e => rw [hs] at h3; cases h3
+  rcases counterexample_fast_extras with ⟨h1, h2, h3, h4⟩
+  have := h exO [] cxCompact (.inst "A" [("a", .int 1), ("zz", .int 2)]) false (by decide) h1 h2
+  simp only [serializeCompact, cxCompact, mkCls, Bool.false_and, Bool.false_eq_true, if_false] at this
+  simp only [cxCompact, mkCls] at h3 h4
+  rw [this, h3] at h4
+  cases h4
 
 /-! ### non-vacuity of `fast_equiv_partial` -/
 
@@ -625,44 +624,35 @@ example : mapKey (mapEnvOf [("A", { ser := some .lower, deser := some (.rename [
 
 /-! ## 5. order of first use: a fresh FastSerializable class whose first instance a trusted path makes -/
 
-/-- **C10 (first use), proved part**: the trusted constructor reaches `FastSerializable.__init__`
-    (which installs the class's serializer) once per supplied keyword, so for an instance made
-    from at least one value it does not matter whether the class was instantiated before:
-    `x.serialize()` is the document of the installed serializer -/
-theorem first_use_partial (Mp : MapEnv) (NF JK : List String) (had : Bool) (cls : FieldDecl) (x : PyVal)
-    (h : (attrsOf x).isEmpty = false) :
+/-- **C10 (first use)**: the trusted constructor reaches `FastSerializable.__init__` (which installs
+    the class's serializer) once per instance, so `x.serialize()` of a trusted-built instance is the
+    document of the installed serializer whether or not the class was instantiated before -/
+theorem first_use_partial (Mp : MapEnv) (NF JK : List String) (had : Bool) (cls : FieldDecl) (x : PyVal) :
     fastSerializeFirst Mp NF JK had cls x = fastSerialize Mp NF JK false false cls x := by
-  simp [fastSerializeFirst, installedAfterTrustedInit, h]
-
-/-- … and on a class that already has its serializer the history never matters -/
-theorem first_use_warm (Mp : MapEnv) (NF JK : List String) (cls : FieldDecl) (x : PyVal) :
-    fastSerializeFirst Mp NF JK true cls x = fastSerialize Mp NF JK false false cls x := by
   simp [fastSerializeFirst, installedAfterTrustedInit]
+
+theorem first_use_warm (Mp : MapEnv) (NF JK : List String) (cls : FieldDecl) (x : PyVal) :
+    fastSerializeFirst Mp NF JK true cls x = fastSerialize Mp NF JK false false cls x :=
+  first_use_partial Mp NF JK true cls x
 
 /-- the statement at full strength (history independence for every trusted-built instance) -/
 def first_use_statement : Prop :=
   ∀ (Mp : MapEnv) (NF JK : List String) (cls : FieldDecl) (x : PyVal),
     fastSerializeFirst Mp NF JK false cls x = fastSerializeFirst Mp NF JK true cls x
 
-/-- finding `first-use-order:no-values`: an instance made from no values leaves a fresh class
-    without its serializer: `serialize()` raises NotImplementedError where the warm class (and the
-    regular path) return `{}` -/
+/-- … which holds since the repair of `first-use-order:no-values` -/
+theorem first_use_history_independent : first_use_statement := by
+  intro Mp NF JK cls x
+  rw [first_use_partial, first_use_partial]
+
+/-- fixed `first-use-order:no-values`: an instance made from no values gets the serializer too -/
 def cxFirstUse : FieldDecl := mkCls "A" [] [("a", .integer {})]
-theorem counterexample_first_use_no_values :
+theorem fixed_first_use_no_values :
     createOk noMappers [] cxFirstUse = true
-    ∧ isErr (fastSerializeFirst noMappers [] [] false cxFirstUse (.inst "A" [])) = true
+    ∧ isDictDoc (fastSerializeFirst noMappers [] [] false cxFirstUse (.inst "A" [])) = true
     ∧ isDictDoc (fastSerializeFirst noMappers [] [] true cxFirstUse (.inst "A" [])) = true
     ∧ isDictDoc (serialize exO cxFirstUse (.inst "A" [])) = true := by
   decide
-
-theorem first_use_statement_false : ¬ first_use_statement := by
-  intro h
-  have h1 := counterexample_first_use_no_values.2.1
-  have h2 := counterexample_first_use_no_values.2.2.1
-  rw [h noMappers [] [] cxFirstUse (.inst "A" [])] at h1
-  cases hx : fastSerializeFirst noMappers [] [] true cxFirstUse (.inst "A" []) with
-  | ok v => rw [hx] at h1; cases h1
-  | error e => rw [hx] at h2; cases h2
 
 /-- non-vacuity: a trusted-built instance with values on a fresh class serializes as on a warm one -/
 theorem first_use_example :
